@@ -5,6 +5,20 @@ DEPS = ("Trusted base: rustc 1.97 nightly (type checker, const evaluator, match 
         "serde_bytes 0.11.19, cosey 0.3.2, iso7816 0.1.4 for value-level encoding/decoding. ")
 
 CLAIMS = {
+    "C04": {
+        "level": "other",
+        "technique": "static obligation analysis over the monomorphic call graph (walked through dependency MIR): every Assert / contract-panicking call / unsafe operation in reachable /repo instances must be discharged by a typed rule; SCC no-recursion; input-consuming-loop rule; no mutable globals",
+        "text": "Sound-by-construction for /repo code relative to the deny table: the exact set of /repo function instances reachable from Request::deserialize is computed (88 per configuration), all their panic-capable MIR constructs are listed (5 today, all in truncate/floor_char_boundary) "
+                "and discharged by the C13 template; any new one is reported with a call path. Recursion, non-consuming loops and mutable globals are excluded structurally. Panic-freedom/termination inside the dependencies is not decided; the property's byte enumeration is a dynamic technique and is not imitated.",
+        "note": DEPS + "Conservative corner (DESIGN section 4.1): a new panic-capable construct that a human could prove safe is still reported as undischarged.",
+    },
+    "C19": {
+        "level": "other",
+        "technique": "static obligation analysis over the monomorphic call graph from the three derived Arbitrary impls (all features + arbitrary), each unwrap / unsafe call / pointer cast / assert discharged by a typed template over HIR slots (lengths vs capacities, dataflow on the Unstructured, repr(transparent), who-may-call)",
+        "text": "All 54 obligations in the reachable /repo instances (per monomorphic instance) are discharged by closed-form templates: array conversions of exactly the requested length, lengths clamped to the target capacity, loop maximum = vector capacity, unchecked UTF-8 on the validated prefix of the same buffer, "
+                "transparent pointer cast with an audited single caller, derive(Arbitrary)'s selector arithmetic. Validity of produced values then follows from the container type invariants. Relative to arbitrary 1.4.2's documented contracts.",
+        "note": DEPS + "Trusted: arbitrary 1.4.2 (bytes(n) returns exactly n bytes, peek_bytes does not consume, arbitrary_loop honours max, derive expansion). Not decided: formatting/cloning/dispatching the value.",
+    },
     "C13": {
         "level": "other",
         "technique": "static wiring table + path-literal analysis of the wrapper decoders + a semantic template for floor_char_boundary/truncate with slots extracted from typed HIR and side conditions evaluated on the slot values (boundary byte set expanded from the predicate's AST over 256 bytes)",
